@@ -1,5 +1,6 @@
 import MidnightZK.Model.C01.Schedule
 import MidnightZK.Model.C01.Quotient
+import MidnightZK.Proofs.C01.GraphCorrect
 /-!
 # C01 — honest proofs verify for every circuit shape and proving configuration
 
@@ -282,5 +283,34 @@ example : recombine (3 : Int) 2 (blind [7] [[1, 2], [4, 5]]) = recombine 3 2 [[1
   quotient_blind_recombine 3 2 (by decide) _ _ (by simp)
 
 end Quotient
+
+/-! ### the expression-graph compiler of the prover -/
+
+section GraphCompiler
+open Lean.Grind Graph
+variable {F : Type} [CommRing F] [DecidableEq F]
+
+/-- **The prover's expression compiler is correct** (`evaluation.rs: add_expression` +
+`GraphEvaluator::evaluate`): for every gate expression `e`, every well-formed graph `g` it is
+added to (in particular the graph holding all previously compiled gates), every operand
+ordering and every row environment, running the evaluation loop of the extended graph and
+reading the returned value source yields `e` evaluated on that row. Covers the constant
+shortcuts (`0`, `1`, `2`), `a + (−b) ↦ Sub`, squaring, operand reordering, `Scaled` and the
+sharing of identical constants / rotations / calculations — over any commutative ring. -/
+theorem compile_correct (le : VS → VS → Bool) (env : Env F) (e : Expr F) (g : G F) (hg : Graph.WF g) :
+    VS.get (addExpr le e g).1 env ((addExpr le e g).1.run env) (addExpr le e g).2 = e.eval env :=
+  compile_correct_aux le env e g hg
+
+/-- Compiling never invalidates what was compiled before: the graph only grows, stays
+well-formed, and earlier value sources keep their value. -/
+theorem compile_preserves (le : VS → VS → Bool) (env : Env F) (e : Expr F) (g : G F) (hg : Graph.WF g)
+    (vs : VS) (hv : Valid g vs) :
+    Graph.WF (addExpr le e g).1 ∧ V (addExpr le e g).1 env vs = V g env vs :=
+  ⟨(addExpr_res le env e g hg).wf, V_ext env (addExpr_res le env e g hg).ext hg hv⟩
+
+/-- Non-vacuity: the graph `GraphEvaluator::default()` starts from is well-formed. -/
+example : Graph.WF (G.init : G F) := WF_init
+
+end GraphCompiler
 
 end MidnightZK.C01
